@@ -78,7 +78,13 @@ spiftool_temp_file(spif_charptr_t ftemplate, size_t len)
     m = umask(0077);
     fd = mkstemp((char *) buff);
     umask(m);
-    if ((fd < 0) || fchmod(fd, (S_IRUSR | S_IWUSR))) {
+    if (fd < 0) {
+        return (-1);
+    }
+    if (fchmod(fd, (S_IRUSR | S_IWUSR))) {
+        /* The file exists and is open.  Do not leave either behind. */
+        close(fd);
+        remove((char *) buff);
         return (-1);
     }
 
